@@ -11,6 +11,8 @@ Not decided: re-encode equivalence (round-trip equality over all inputs).
     hand-written code reachable from the decoders: distinct wire values would collapse to one
     accepted value.
  W4 (K2) the hand-rolled address-bytes collector accepts only inputs whose own length is 20.
+ W5 (inventory) silently truncating iterator/slice adapters (zip, chunks_exact, take, truncate..)
+    in hand-written code reachable from the decoders are a reviewed table.
 """
 import re
 
@@ -299,6 +301,7 @@ def run(prog, rep):
     w2(prog, rep)
     w3(prog, rep, seen)
     w4(prog, rep)
+    w5(prog, rep, seen)
 
 
 def w4(prog, rep):
@@ -323,6 +326,59 @@ def w4(prog, rep):
     rep.check(good, "W4", "address-bytes:exact-length",
               "try_collect_to_array can return Ok without `input.len() == 20` having been "
               f"established on the input's own length ({how})", b.describe())
+
+
+TRUNCATING = ("zip", "chunks_exact", "rchunks_exact", "chunks", "rchunks", "take", "take_while",
+              "step_by", "skip", "skip_while", "truncate", "windows", "nth", "split_at", "split_off",
+              "map_while")
+REVIEWED_TRUNCATING = {
+    ("astria_core_address::try_collect_to_array", "zip"):
+        "copies into the 20-byte array after the input's own length was checked to be 20 (W4)",
+    ("astria_merkle::audit::Proof::reconstruct_root_with_leaf_hash", "chunks"):
+        "32-byte hashes of the audit path; the length is validated against the leaf's depth (M3)",
+    ("astria_merkle::audit::Proof::reconstruct_root_with_leaf_hash", "take"):
+        "the walk is bounded by the leaf's depth on purpose; perform() requires the exact length",
+    ("astria_conductor::celestia::convert::ConvertedBlobs::extend_from_header_list_if_well_formed",
+     "truncate"): "rolls the output list back to its previous length when a list is malformed",
+    ("astria_conductor::celestia::convert::ConvertedBlobs::extend_from_rollup_data_list_if_well_formed",
+     "truncate"): "rolls the output list back to its previous length when a list is malformed",
+}
+
+
+def w5(prog, rep, seen):
+    """W5 (inventory) silently truncating adapters on the decoding path.  `zip` stops at the
+    shorter side, `chunks_exact` drops the remainder, `take`/`step_by`/`truncate` cut: a parser
+    that uses one without checking what was cut accepts an input of which it has only read a
+    part (the accepted value does not re-encode to the input).  Every such call in hand-written
+    code reachable from the decoders is in the reviewed table, with the reason why nothing is
+    lost."""
+    n = 0
+    found = set()
+    for owner in sorted(seen):
+        if "::generated::" in owner or "_serde_impl" in owner:
+            continue
+        for b in prog.bodies_of(owner):
+            for c in b.calls:
+                if c.expn:
+                    continue
+                sn = short_name(c.callee)
+                if sn not in TRUNCATING or not re.search(
+                        r"(core::iter|core::slice|alloc::vec|alloc::collections|core::str|"
+                        r"Iterator|IndexMap|indexmap)", c.callee or ""):
+                    continue
+                n += 1
+                key = (owner, sn)
+                found.add(key)
+                reason = REVIEWED_TRUNCATING.get(key)
+                if reason:
+                    rep.ok("W5", f"{owner}|{sn}", f"reviewed: {reason}")
+                else:
+                    rep.fail("W5", rep.nth(f"{owner}|{sn}"),
+                             f"`{sn}` on the decoding path of {owner} is not in the reviewed table: "
+                             "a truncating adapter silently ignores part of the input unless the "
+                             "part that is cut is checked (length equality, `remainder()`): the "
+                             "decoder would accept an input it has only partly read", c.where())
+    rep.floor("W5", n, 3, "truncating adapters on the decoding path (reviewed)")
 
 
 INT_BITS = {"u8": 8, "u16": 16, "u32": 32, "u64": 64, "u128": 128, "usize": 64,
